@@ -38,6 +38,9 @@ pub mod model {
         pub OBS_P: [u8; MAXOBS],
         pub OBS_K: usize,
         pub CUT_P: u8,
+        pub UNCLAIMED_FROM: usize,
+        pub DRAIN_MODE: bool,
+        pub DRAINER: usize,
         pub LEN: usize,
         pub CLAIMED: [bool; MAXN],
         pub CLAIMED_BY: [u8; MAXN],
@@ -49,7 +52,7 @@ pub mod model {
         pub PROGRESS: usize,
         pub FINISHED: bool,
         pub CUT: usize,
-        pub SKIPPED: [bool; MAXT],
+        pub SKIPPED: u32,
         pub RUNS: usize,
         pub SCOPES: usize,
         pub SPAWNS: usize,
@@ -58,8 +61,7 @@ pub mod model {
         pub BAD_PULL_SIZE: bool,
         pub PULL_AFTER_SKIP: bool,
         pub PULL_AFTER_MATCH: bool,
-        pub MATCHED: [bool; MAXT],
-        pub FIRST_PULL_SIZE: [usize; MAXT],
+        pub MATCHED: u32,
         pub WORKER_LOAD: bool,
     }
     pub static mut S: St = St {
@@ -73,6 +75,9 @@ pub mod model {
         OBS_P: [0; MAXOBS],
         OBS_K: 0,
         CUT_P: 0,
+        UNCLAIMED_FROM: usize::MAX,
+        DRAIN_MODE: false,
+        DRAINER: 0,
         LEN: 0,
         CLAIMED: [false; MAXN],
         CLAIMED_BY: [NOBODY; MAXN],
@@ -84,7 +89,7 @@ pub mod model {
         PROGRESS: 0,
         FINISHED: false,
         CUT: usize::MAX,
-        SKIPPED: [false; MAXT],
+        SKIPPED: 0,
         RUNS: 0,
         SCOPES: 0,
         SPAWNS: 0,
@@ -93,8 +98,7 @@ pub mod model {
         BAD_PULL_SIZE: false,
         PULL_AFTER_SKIP: false,
         PULL_AFTER_MATCH: false,
-        MATCHED: [false; MAXT],
-        FIRST_PULL_SIZE: [0; MAXT],
+        MATCHED: 0,
         WORKER_LOAD: false,
     };
 
@@ -182,11 +186,15 @@ pub mod model {
             if modelled() {
                 let mut i = 0;
                 while i < MAXN {
-                    if i < S.LEN && i < S.CUT {
+                    if i < S.LEN && i < S.CUT && i < S.UNCLAIMED_FROM {
                         kani::assume(S.CLAIMED[i]);
                     }
                     i += 1;
                 }
+            }
+            if S.DRAIN_MODE {
+                // the drainer must exist: somebody consumes the source
+                kani::assume(S.DRAINER < S.SPAWNS);
             }
             S.FINISHED = true;
         }
@@ -210,15 +218,12 @@ pub mod model {
                 if S.EXPECT_PULL != 0 && val != S.EXPECT_PULL {
                     S.BAD_PULL_SIZE = true;
                 }
-                if S.THREAD < MAXT {
-                    if S.SKIPPED[S.THREAD] {
+                if S.THREAD < 32 {
+                    if S.SKIPPED & (1u32 << S.THREAD) != 0 {
                         S.PULL_AFTER_SKIP = true;
                     }
-                    if S.MATCHED[S.THREAD] {
+                    if S.MATCHED & (1u32 << S.THREAD) != 0 {
                         S.PULL_AFTER_MATCH = true;
-                    }
-                    if S.FIRST_PULL_SIZE[S.THREAD] == 0 {
-                        S.FIRST_PULL_SIZE[S.THREAD] = val;
                     }
                 }
                 let lo = if S.LAST_END > S.FLOOR { S.LAST_END } else { S.FLOOR };
@@ -227,12 +232,15 @@ pub mod model {
                 let mut i = MAXN;
                 while i > 0 {
                     i -= 1;
-                    if i >= lo && i < S.LEN && S.OWNER[i] as usize == S.THREAD {
+                    if i >= lo && i < S.LEN && i < S.UNCLAIMED_FROM && S.OWNER[i] as usize == S.THREAD {
                         b = i;
                     }
                 }
                 if b >= S.LEN || b >= S.CUT {
-                    return S.LEN; // this worker sees the source exhausted
+                    // nothing left that this worker owns: it sees the source exhausted - which a real counter only
+                    // reports once every position is claimed or early exit was published
+                    kani::assume(S.UNCLAIMED_FROM >= S.LEN || S.CUT != usize::MAX);
+                    return S.LEN;
                 }
                 let e = if val < S.LEN - b { b + val } else { S.LEN };
                 kani::assume(e <= S.CUT);
@@ -250,6 +258,9 @@ pub mod model {
                 S.IS_END[e] = true;
                 S.LAST_END = e;
                 b
+            } else if starved() && is_iter(this) {
+                // a worker that only runs after the source is exhausted: its position / ticket lies beyond everything
+                usize::MAX / 2
             } else {
                 let p = this.as_ptr();
                 let old = *p;
@@ -328,8 +339,8 @@ pub mod model {
                 if S.PHASE != 2 {
                     assert!(false, "VERIF-MODEL: skip_to_end outside a task");
                 }
-                if S.THREAD < MAXT {
-                    S.SKIPPED[S.THREAD] = true;
+                if S.THREAD < 32 {
+                    S.SKIPPED |= 1u32 << S.THREAD;
                 }
                 if S.CUT == usize::MAX {
                     let c: usize = S.CUT_P as usize;
@@ -379,7 +390,7 @@ pub mod model {
     /// concrete values can be fed to the native replay in the same order.
     pub fn begin(n: usize, t: usize, owners: Option<[u8; MAXN]>, obs_policy: u8) {
         unsafe {
-            assert!(n <= MAXN && t <= MAXT);
+            assert!(n <= MAXN && t <= 32);
             S.ACTIVE = true;
             S.AVAILABLE = t;
             S.OBS_POLICY = obs_policy;
@@ -400,6 +411,18 @@ pub mod model {
             let obs: [u8; MAXOBS] = kani::any();
             S.OBS_P = obs;
             S.CUT_P = kani::any();
+            // prophecy: positions from UNCLAIMED_FROM on are never claimed by anybody.  In a correct run every
+            // worker pulls until a pull fails, so this is LEN; a worker that stops pulling early (a bug) makes
+            // shorter values feasible, and the lost elements then show up in the harness' assertion instead of
+            // being assumed away.  Symbolic for symbolic owner tables, LEN for fixed tables (there the final
+            // reachability witness guards against a vacuous pass).
+            let u: u8 = kani::any();
+            if owners.is_none() {
+                kani::assume((u as usize) <= n);
+                S.UNCLAIMED_FROM = u as usize;
+            } else {
+                S.UNCLAIMED_FROM = n;
+            }
         }
     }
 
@@ -425,10 +448,56 @@ pub mod model {
 
     /// no schedule model: atomics keep their sequential meaning, i.e. the first worker drains
     /// the source and later workers come back empty
+    /// Without the schedule model the source is consumed by ONE worker (the "drainer", symbolic spawn index);
+    /// workers spawned before it are scheduled so late that they find the source exhausted (for iterator-backed
+    /// sources: their attempts to get the handle see COMPLETED), workers spawned after it find it exhausted anyway.
     pub fn begin_unscheduled(t: usize) {
         unsafe {
             S.ACTIVE = false;
             S.AVAILABLE = t;
+            S.DRAIN_MODE = true;
+            let d: u8 = kani::any();
+            kani::assume((d as usize) < t);
+            S.DRAINER = d as usize;
+        }
+    }
+
+    fn starved() -> bool {
+        unsafe { S.DRAIN_MODE && S.PHASE == 2 && S.THREAD < S.DRAINER }
+    }
+
+    pub fn cmpxchg_usize(this: &AtomicUsize, current: usize, new: usize, _s: Ordering, _f: Ordering) -> Result<usize, usize> {
+        unsafe {
+            if starved() && is_iter(this) {
+                return Err(usize::MAX); // ConIterOfIter: COMPLETED
+            }
+            let p = this.as_ptr();
+            let old = *p;
+            if old == current {
+                *p = new;
+                Ok(old)
+            } else {
+                Err(old)
+            }
+        }
+    }
+
+    pub fn cmpxchg_u8(this: &std::sync::atomic::AtomicU8, current: u8, new: u8, _s: Ordering, _f: Ordering) -> Result<u8, u8> {
+        unsafe {
+            let base = orx_parallel::verif::RUN.iter;
+            if starved() && !base.is_null()
+                && kani::mem::same_allocation(this as *const std::sync::atomic::AtomicU8 as *const u8, base)
+            {
+                return Err(2); // ConIterOfIterX: COMPLETED
+            }
+            let p = this.as_ptr();
+            let old = *p;
+            if old == current {
+                *p = new;
+                Ok(old)
+            } else {
+                Err(old)
+            }
         }
     }
 
@@ -437,13 +506,14 @@ pub mod model {
     pub fn probe(_pos: usize) {}
     pub fn matched() {
         unsafe {
-            if S.PHASE == 2 && S.THREAD < MAXT {
-                S.MATCHED[S.THREAD] = true;
+            if S.PHASE == 2 && S.THREAD < 32 {
+                S.MATCHED |= 1u32 << S.THREAD;
             }
         }
     }
 
     // ---- accessors (same API natively)
+    pub fn drainer() -> usize { unsafe { S.DRAINER } }
     pub fn scopes() -> usize { unsafe { S.SCOPES } }
     pub fn runs() -> usize { unsafe { S.RUNS } }
     pub fn max_spawns() -> usize { unsafe { S.MAX_SPAWNS } }
@@ -456,19 +526,9 @@ pub mod model {
     pub fn expect_pull(c: usize) { unsafe { S.EXPECT_PULL = c; } }
     pub fn model_run(k: usize) { unsafe { S.MODEL_RUN = k; } }
     pub fn any_matched() -> bool {
-        unsafe {
-            let mut i = 0;
-            let mut r = false;
-            while i < MAXT { r |= S.MATCHED[i]; i += 1; }
-            r
-        }
+        unsafe { S.MATCHED != 0 }
     }
     pub fn any_skipped() -> bool {
-        unsafe {
-            let mut i = 0;
-            let mut r = false;
-            while i < MAXT { r |= S.SKIPPED[i]; i += 1; }
-            r
-        }
+        unsafe { S.SKIPPED != 0 }
     }
 }
